@@ -176,15 +176,48 @@ def handleCompile (j : Json) : Except String Json := do
     pure (ok ([("out", Json.str "ok"), ("api", apiToJson api), ("closed", Json.bool api.closed)] ++ den))
   | .error e => pure (ok [("out", Json.str "error"), ("kind", Json.str (errName e))])
 
-/-- the hypothesis of the theorems of Props/C02Compile.lean (`compile fs = .ok api`) and their decidable conclusions,
-evaluated on one input -/
+/-- the first clause of `Legal` that fails, by name (for failure signatures only) -/
+def typeWhy (rx : String → Bool) (fs : List File) (ns : String) (d : TypeDecl) : String :=
+  if !extendsLegal rx fs ns d then "extends"
+  else if !(match d.kind with
+      | .struct => d.fields.all (structMemberLegal rx fs ns)
+      | .union _ => d.fields.all (unionMemberLegal rx fs ns)) then "member"
+  else match denoteType rx fs ns d with
+    | none => "denote"
+    | some c =>
+      if dupName (c.fields.map (·.name)) then "member-twice"
+      else if !(match ancestorNames (typeS rx fs) (fuelT fs) c.parent with
+        | .ok anc => !(c.fields.any fun f => anc.contains f.name)
+        | .error _ => false) then "member-of-ancestor"
+      else if !(match d.kind with
+        | .struct => c.fields.all fun f =>
+            isOk (defaultLegal (fuelA fs) (aliasS rx fs) (fun k => isUnionKind (kindS fs k)) f)
+        | .union _ => true) then "default"
+      else if !enumLegal rx fs ns d c then "enumerated-subtypes"
+      else "?"
+
+def legalWhy (rx : String → Bool) (fs : List File) : String :=
+  if !namesLegal fs then "names"
+  else if !importsLegal fs then "imports"
+  else match (allPairs fs).find? (fun p => !declLegal rx fs p.1 p.2) with
+    | some (ns, .type d) => "type." ++ typeWhy rx fs ns d
+    | some (_, .alias _ _) => "alias"
+    | some (_, .route _) => "route"
+    | _ => "?"
+
+/-- the hypotheses of the theorems of Props/C02Compile.lean and Props/C01Compile.lean and their decidable conclusions,
+evaluated on one input: `compile fs = .ok api`, `Legal fs`, namespace names without `/` -/
 def handleHyps (j : Json) : Except String Json := do
   let (rx, files) ← parseReq j
+  let legal := Legal rx files
+  let common : List (String × Json) :=
+    [("legal", Json.bool legal), ("ns_lexical", Json.bool (nsLexical files))] ++
+      (if legal then [] else [("why", Json.str (legalWhy rx files))])
   match compile rx files with
   | .ok api =>
-    pure (ok [("compile_ok", Json.bool true), ("closed", Json.bool api.closed),
-              ("denote_equal", Json.bool (denote rx files == some api))])
-  | .error e => pure (ok [("compile_ok", Json.bool false), ("kind", Json.str (errName e))])
+    pure (ok ([("compile_ok", Json.bool true), ("closed", Json.bool api.closed),
+              ("denote_equal", Json.bool (denote rx files == some api))] ++ common))
+  | .error e => pure (ok ([("compile_ok", Json.bool false), ("kind", Json.str (errName e))] ++ common))
 
 def handle (op : String) (j : Json) : Except String Json :=
   match op with
